@@ -328,3 +328,9 @@ def r13(c):
 def r14(c):
     from rules import c05
     c05.r7(c)
+
+
+@rule('C02', 'R02.15', 'a broadcast write reaches the write handler of every configured unit exactly once: the fan-out loop is left only when the handlers are exhausted (C17/R17.4)')
+def r15(c):
+    from rules import c17
+    c17.r4(c)
